@@ -103,7 +103,9 @@ func (j *jsonproto) Pack(m erpc.Message) error {
 	xferPipeLen := m.XferPipe().Len()
 
 	// set size
-	m.SetSize(uint32(1 + xferPipeLen + len(b)))
+	if err = m.SetSize(uint32(1 + xferPipeLen + len(b))); err != nil {
+		return err
+	}
 
 	// pack
 	var all = make([]byte, m.Size()+4)
